@@ -17,6 +17,7 @@ import Driver.GroupCmd
 import Driver.SeekCmd
 import Driver.BinCmd
 import Driver.FlushCmd
+import Driver.PersistCmd
 /-
 `raindrv`: one request per line on stdin, one answer per line on stdout.
 Unknown or malformed requests answer `bad-request` (never a default value).
@@ -47,6 +48,7 @@ def dispatch (toks : List String) : String :=
       else if cmd.startsWith "seek." then seekCmd toks
       else if cmd.startsWith "bin." then binCmd toks
       else if cmd.startsWith "flush." then flushCmd toks
+      else if cmd.startsWith "persist." then persistCmd toks
       else none
     match r with
     | some s => s
